@@ -11,8 +11,16 @@ import PortusModel.Props.C14
 # `compile ⊑ lower`: on the fragment of C01 the real compiler emits the reference lowering
 
 See the end of the file for the final statement (`compile_refines_lower`): it holds for **every**
-stratified program the compiler and the encoder accept — no hypothesis about the order of reads and
+program of the fragment `InOracle` (stratified programs, plus plain binds used as values inside
+expressions) that the compiler and the encoder accept — no hypothesis about the order of reads and
 assignments.
+
+Nested binds. Inside an expression the scope is no longer only *extended* (`Ext`: reading a name may
+create an untyped local): a nested `(:= x r)` may also re-type an untyped binding (`bindTarget`). What
+the proof needs survives: bindings never move (`Reach.fwd`: same slot, hence the same machine register
+under the final scope), and the invariant `SelfNamed` is kept by `compile_expr` on *every* expression
+(`compileExpr_selfNamed`): the re-typing step only ever records a type that is not a name. The bind arm
+is analysed once (`bind_decomp`), for statements and nested binds alike.
 
 History. Before the repair F11 the statement was false: `Stratified` alone lets through
 `(def (Report (acked 0)) (c 0)) (when true (:= x y) (:= x 3))` with `y` never assigned; reading the
@@ -192,7 +200,7 @@ theorem compileAtom_lower {scF : Scope} {p : Prim} {sc : Scope} {c : CE} (h : co
     obtain ⟨-, -, hg, -⟩ := compileAtom_name h
     simp only [lowerE, rhoOf_of_reach hr hg, Option.map_some]
 
-/-! ## pure expressions -/
+/-! ## the invariant between (and inside) statements -/
 
 theorem pureE_sexp {o : Op} {l r : Expr} (h : pureE (.sexp o l r) = true) :
     (∃ code, pureOpcode o = some code) ∧ pureE l = true ∧ pureE r = true := by
@@ -201,59 +209,24 @@ theorem pureE_sexp {o : Op} {l r : Expr} (h : pureE (.sexp o l r) = true) :
   refine ⟨?_, h2, h3⟩
   cases o <;> first | exact ⟨_, rfl⟩ | cases h1
 
-/-- **stage 1.** A pure expression compiles to its reference lowering: same instructions, same result
-register, same number of temporaries. `hk`/the second conclusion: at most 8 temporaries are live, so
-`new_tmp`'s `as u8` is the identity. -/
-theorem compileExpr_lower {scF : Scope} {e : Expr} (hp : pureE e = true) {sc : Scope} {c : CE}
-    (h : compileExpr e sc = .ok c) (hr : Reach False c.sc scF)
-    (hser : ∀ i ∈ c.instrs, SerI i) (hreg : SerR c.reg) (hk : sc.tmp.length ≤ 8) :
-    lowerE (rhoOf scF) e sc.tmp.length = some ⟨c.instrs.map toVInstr, toVReg c.reg, c.sc.tmp.length⟩ ∧
-    c.sc.tmp.length ≤ 8 := by
-  induction e generalizing sc c with
-  | cmd _ => cases hp
-  | none => cases hp
-  | atom p =>
-    simp only [compileExpr] at h
-    obtain ⟨h1, h2⟩ := compileAtom_basic h
-    rw [compileAtom_lower h hr hreg, h1, h2]
-    exact ⟨rfl, hk⟩
-  | sexp o le re ihl ihr =>
-    obtain ⟨⟨code, ho⟩, hpl, hpr⟩ := pureE_sexp hp
-    unfold compileExpr at h
-    obtain ⟨l, hl, h⟩ := Out.bind_eq_ok.mp h
-    obtain ⟨r, hr', h⟩ := Out.bind_eq_ok.mp h
-    obtain ⟨t, o', rfl, hop, -⟩ := combine_pure ho h
-    have rr : Reach False r.sc scF := (Reach.single (Step.tmp _ _)).trans hr
-    have rl : Reach False l.sc scF := (compileExpr_reach (F := False) (fun f => f.elim) hr').1.trans rr
-    simp only at hser hreg
-    have hlast := hser _ (List.mem_append_right _ (List.mem_singleton.mpr rfl))
-    have hsl : ∀ i ∈ l.instrs, SerI i := fun i hi =>
-      hser i (List.mem_append_left _ (List.mem_append_left _ hi))
-    have hsr : ∀ i ∈ r.instrs, SerI i := fun i hi =>
-      hser i (List.mem_append_left _ (List.mem_append_right _ hi))
-    obtain ⟨el, kl⟩ := ihl hpl hl rl hsl hlast.2.1 hk
-    obtain ⟨er, kr⟩ := ihr hpr hr' rr hsr hlast.2.2 kl
-    have hmod : r.sc.tmp.length % 256 = r.sc.tmp.length := Nat.mod_eq_of_lt (by omega)
-    have h7 : r.sc.tmp.length ≤ 7 := by have := SerR_tmp hreg; omega
-    simp only [lowerE, ho, el, er, hmod, toVReg_tmp h7, List.length_append, List.length_singleton,
-      List.map_append, List.map_cons, List.map_nil, toVInstr, hop]
-    exact ⟨trivial, by omega⟩
+/-- a binding whose recorded type is still a name is the binding of that very name (an untyped local
+carries its own name) -/
+def SelfNamed (sc : Scope) : Prop := ∀ n r s, sc.get n = some r → r.getType = .name s → s = n
 
-/-! ## the invariant between statements -/
-
-/-- between statements: a binding whose recorded type is still a name is the binding of that very
-name (an untyped local carries its own name), and the event flag is the implicit register 0 -/
+/-- between statements: `SelfNamed`, and the event flag is the implicit register 0 -/
 structure Inv (sc : Scope) : Prop where
-  selfName : ∀ n r s, sc.get n = some r → r.getType = .name s → s = n
+  selfName : SelfNamed sc
   flag : sc.get flagName = some (.implicit 0 (.bool none))
 
 theorem get_of_named {a b : Scope} (h : b.named = a.named) (n : Name) : b.get n = a.get n := by
   unfold Scope.get; rw [h]
 
+theorem SelfNamed.of_named {a b : Scope} (h : b.named = a.named) (hi : SelfNamed a) : SelfNamed b := by
+  intro n r s hg; rw [get_of_named h] at hg; exact hi n r s hg
+
 theorem Inv.of_named {a b : Scope} (h : b.named = a.named) (hi : Inv a) : Inv b := by
-  refine ⟨?_, ?_⟩
-  · intro n r s hg; rw [get_of_named h] at hg; exact hi.selfName n r s hg
-  · rw [get_of_named h]; exact hi.flag
+  refine ⟨hi.selfName.of_named h, ?_⟩
+  rw [get_of_named h]; exact hi.flag
 
 theorem Inv.flag_reach {sc sc' : Scope} (hi : Inv sc) (hr : Reach False sc sc') :
     sc'.get flagName = some (.implicit 0 (.bool none)) := by
@@ -261,7 +234,8 @@ theorem Inv.flag_reach {sc sc' : Scope} (hi : Inv sc) (hr : Reach False sc sc') 
   rw [h1, Reg.slot_builtin (r := .implicit 0 (.bool none)) rfl h2]
 
 /-- `b` extends `a` by untyped locals: every name keeps its binding, or was unbound and is now a
-local whose recorded type is its own name. This is all that reading names does to a scope. -/
+local whose recorded type is its own name. This is all that reading names does to a scope (all that
+compiling a *pure* expression does: `compileExpr_ext`; a nested bind may also re-type a binding). -/
 def Ext (a b : Scope) : Prop :=
   ∀ m, b.get m = a.get m ∨ (a.get m = none ∧ ∃ i, b.get m = some (.local i (.name m)))
 
@@ -286,31 +260,14 @@ theorem Ext.get_bound {a b : Scope} (h : Ext a b) {m : Name} {r : Reg} (hg : a.g
   · rw [e, hg]
   · rw [hg] at n; cases n
 
-theorem Ext.inv {a b : Scope} (h : Ext a b) (hi : Inv a) : Inv b := by
-  refine ⟨?_, h.get_bound hi.flag⟩
+theorem Ext.selfNamed {a b : Scope} (h : Ext a b) (hi : SelfNamed a) : SelfNamed b := by
   intro n r s hg hs
   rcases h n with e | ⟨-, i, e⟩
-  · rw [e] at hg; exact hi.selfName n r s hg hs
+  · rw [e] at hg; exact hi n r s hg hs
   · rw [e] at hg; cases hg; cases hs; rfl
 
-/-- the right-hand side of a statement of the fragment -/
-def RhsOk (rhs : Expr) : Prop :=
-  pureE rhs = true ∨
-  ∃ o a b, rhs = .sexp o a b ∧ (o = .if ∨ o = .notIf ∨ o = .ewma) ∧ pureE a = true ∧ pureE b = true
-
-theorem rhsOk_of_stmtOk {x : Name} {rhs : Expr} (h : stmtOk (.sexp .bind (.atom (.name x)) rhs) = true) :
-    RhsOk rhs := by
-  cases rhs with
-  | atom p => exact Or.inl rfl
-  | cmd c => simp [stmtOk, pureE] at h
-  | none => simp [stmtOk, pureE] at h
-  | sexp o a b =>
-    cases o <;> simp only [stmtOk, Bool.and_eq_true] at h <;>
-      first
-        | exact Or.inl h
-        | exact Or.inr ⟨_, _, _, rfl, Or.inl rfl, h.1, h.2⟩
-        | exact Or.inr ⟨_, _, _, rfl, Or.inr (Or.inl rfl), h.1, h.2⟩
-        | exact Or.inr ⟨_, _, _, rfl, Or.inr (Or.inr rfl), h.1, h.2⟩
+theorem Ext.inv {a b : Scope} (h : Ext a b) (hi : Inv a) : Inv b :=
+  ⟨h.selfNamed hi.selfName, h.get_bound hi.flag⟩
 
 theorem combine_cond {o : Op} (ho : o = .if ∨ o = .notIf ∨ o = .ewma) {is : List Instr} {l r : Reg}
     {sc : Scope} {c : CE} (h : combine o is l r sc = .ok c) :
@@ -354,18 +311,6 @@ theorem compileExpr_ext {e : Expr} (hp : pureE e = true) {sc : Scope} {c : CE}
     obtain ⟨t, o', rfl, -, -⟩ := combine_pure ho h
     exact ((ihl hpl hl).trans (ihr hpr hr')).trans (Ext.of_named rfl)
 
-theorem rhs_ext {rhs : Expr} (hp : RhsOk rhs) {sc : Scope} {c : CE}
-    (h : compileExpr rhs sc = .ok c) : Ext sc c.sc := by
-  rcases hp with hp | ⟨o, a, b, rfl, ho, hpa, hpb⟩
-  · exact compileExpr_ext hp h
-  · unfold compileExpr at h
-    obtain ⟨l, hl, h⟩ := Out.bind_eq_ok.mp h
-    obtain ⟨r, hr', h⟩ := Out.bind_eq_ok.mp h
-    have := combine_cond ho h
-    subst this
-    show Ext sc r.sc
-    exact (compileExpr_ext hpa hl).trans (compileExpr_ext hpb hr')
-
 /-! ## the `Bind` arm -/
 
 theorem bindEmit_sc {is : List Instr} {left right : Reg} {sc : Scope} {c : CE}
@@ -383,103 +328,287 @@ theorem bindEmit_sc {is : List Instr} {left right : Reg} {sc : Scope} {c : CE}
     · cases h; exact ⟨rfl, rfl⟩
     · cases h
 
-/-- when the left operand is the binding of `x` and its recorded type, if a name, is `x` itself,
-the re-typing step returns the binding of `x`, touches no other binding, and the recorded type of the
-result, if still a name (untyped right-hand side), is again `x` -/
-theorem bindTarget_self {x : Name} {left right : Reg} {sc : Scope} {left' : Reg} {sc' : Scope}
-    (hg : sc.get x = some left) (hself : ∀ s, left.getType = .name s → s = x)
-    (h : bindTarget left right sc = .ok (left', sc')) :
-    sc'.get x = some left' ∧ (∀ m, m ≠ x → sc'.get m = sc.get m) ∧
-    (∀ s, left'.getType = .name s → s = x) := by
+/-- a bind that compiles never has the placeholder as its result register -/
+theorem bindEmit_reg_ne_none {is : List Instr} {left right : Reg} {sc : Scope} {c : CE}
+    (h : bindEmit is left right sc = .ok c) : c.reg ≠ .none := by
+  rw [(bindEmit_sc h).2]
+  unfold bindEmit at h
+  split at h
+  · split at h
+    · rename_i hrc; exact isRC_ne_none hrc
+    · cases h
+  · split at h
+    · rename_i hrt
+      rw [Bool.or_eq_true] at hrt
+      rcases hrt with hrt | hrt
+      · exact isRC_ne_none hrt
+      · exact isTIL_ne_none hrt
+    · cases h
+
+/-- a bind whose right-hand side has a result register (is not a conditional / ewma placeholder) appends the
+`bind` instruction -/
+theorem bindEmit_plain {is : List Instr} {left right : Reg} {sc : Scope} {c : CE} (hnn : right ≠ .none)
+    (h : bindEmit is left right sc = .ok c) :
+    c = ⟨is ++ [{ res := left, op := .bind, left := left, right := right }], left, sc⟩ := by
+  unfold bindEmit at h
+  rw [if_neg hnn] at h
+  split at h
+  · cases h; rfl
+  · cases h
+
+/-- a bind whose right-hand side is empty code with the placeholder register does not compile -/
+theorem bindEmit_nil_none {left : Reg} {sc : Scope} {c : CE} (h : bindEmit [] left .none sc = .ok c) : False := by
+  unfold bindEmit at h
+  rw [if_pos rfl] at h
+  split at h
+  · simp only [List.getLast?_nil] at h
+    cases h
+  · cases h
+
+/-- the re-typing step keeps `SelfNamed` — whatever the operands: it either leaves the scope alone or gives a
+binding a recorded type that is not a name -/
+theorem bindTarget_selfNamed {left right : Reg} {sc : Scope} {left' : Reg} {sc' : Scope}
+    (hs : SelfNamed sc) (h : bindTarget left right sc = .ok (left', sc')) : SelfNamed sc' := by
+  unfold bindTarget at h
+  split at h
+  · rename_i s hsn
+    split at h
+    · cases h; exact hs
+    rename_i hnn
+    obtain ⟨r1, h1, h2, rfl⟩ := Scope.updateType_ok h
+    intro n r0 s0 hg hs0
+    have hg' : regGet n (regSet s left' sc.named) = some r0 := hg
+    rw [get_regSet_bound h1] at hg'
+    split at hg'
+    · cases hg'
+      rw [Reg.setTy_getType h2] at hs0
+      exact absurd hs0 (hnn s0)
+    · exact hs n r0 s0 hg' hs0
+  · cases h; exact hs
+
+/-- the re-typing step keeps the temporaries and returns a register in the slot of the left operand, provided the
+left operand is the binding of `x` (up to its recorded type) and its recorded type, if a name, is `x` itself -/
+theorem bindTarget_slot {x : Name} {left right : Reg} {sc : Scope} {left' : Reg} {sc' : Scope} {r0 : Reg}
+    (hg : sc.get x = some r0) (hslot : r0.slot = left.slot) (hself : ∀ s, left.getType = .name s → s = x)
+    (h : bindTarget left right sc = .ok (left', sc')) : left'.slot = left.slot ∧ sc'.tmp = sc.tmp := by
   unfold bindTarget at h
   split at h
   · rename_i s hs
     have := hself s hs
     subst this
     split at h
-    · cases h
-      exact ⟨hg, fun _ _ => rfl, hself⟩
-    rename_i hnn
+    · cases h; exact ⟨rfl, rfl⟩
     obtain ⟨r1, h1, h2, rfl⟩ := Scope.updateType_ok h
-    refine ⟨?_, ?_, ?_⟩
-    · show regGet s (regSet s left' sc.named) = some left'
-      rw [get_regSet_bound h1, if_pos rfl]
-    · intro m hm
-      show regGet m (regSet s left' sc.named) = sc.get m
-      rw [get_regSet_bound h1, if_neg hm]
-    · intro s' hs'
-      rw [Reg.setTy_getType h2] at hs'
-      exact absurd hs' (hnn s')
-  · cases h
-    exact ⟨hg, fun _ _ => rfl, hself⟩
+    rw [hg] at h1
+    cases h1
+    exact ⟨(Reg.setTy_slot h2).trans hslot, rfl⟩
+  · cases h; exact ⟨rfl, rfl⟩
 
-/-- the common part of every statement `(:= x rhs)` -/
-theorem bind_decomp {x : Name} {rhs : Expr} {sc : Scope} {c : CE}
-    (hrhs : RhsOk rhs) (hinv : Inv sc)
-    (h : compileExpr (.sexp .bind (.atom (.name x)) rhs) sc.clearTmps = .ok c) :
-    ∃ (l r : CE) (left' : Reg), compileExpr rhs l.sc = .ok r ∧ l.sc.tmp = [] ∧ Reach False r.sc c.sc ∧
-      bindEmit r.instrs left' r.reg c.sc = .ok c ∧ c.sc.get x = some left' ∧ Inv c.sc := by
-  have hreach : Reach False sc c.sc :=
-    (Reach.single (Step.tmp _ _)).trans (compileExpr_reach (F := False) (fun f => f.elim) h).1
+theorem compileAtom_selfNamed {p : Prim} {sc : Scope} {c : CE} (hs : SelfNamed sc)
+    (h : compileAtom p sc = .ok c) : SelfNamed c.sc :=
+  (compileAtom_ext h).selfNamed hs
+
+theorem combineBind_selfNamed {is : List Instr} {left right : Reg} {sc : Scope} {c : CE}
+    (hs : SelfNamed sc) (h : combineBind is left right sc = .ok c) : SelfNamed c.sc := by
+  obtain ⟨left', sc', hq, he⟩ := combineBind_ok_split h
+  rw [(bindEmit_sc he).1]
+  exact bindTarget_selfNamed hs hq
+
+theorem combine_selfNamed {o : Op} {is : List Instr} {left right : Reg} {sc : Scope} {c : CE}
+    (hs : SelfNamed sc) (h : combine o is left right sc = .ok c) : SelfNamed c.sc := by
+  cases o <;> simp only [combine] at h <;>
+  first
+    | exact combineBind_selfNamed hs h
+    | (unfold unreachableP at h; cases h; done)
+    | (split at h
+       · cases h
+       · split at h
+         · cases h
+         · simp only [Scope.newTmp, Out.ok.injEq] at h
+           subst h
+           exact hs.of_named rfl)
+    | (split at h
+       · cases h
+       · cases h
+         exact hs)
+
+/-- **`SelfNamed` is an invariant of `compile_expr`** — for every expression, in the fragment or not -/
+theorem compileExpr_selfNamed {e : Expr} {sc : Scope} {c : CE} (hs : SelfNamed sc)
+    (h : compileExpr e sc = .ok c) : SelfNamed c.sc := by
+  induction e generalizing sc c with
+  | atom p => exact compileAtom_selfNamed hs h
+  | cmd _ => cases h
+  | none => cases h
+  | sexp o le re ihl ihr =>
+    unfold compileExpr at h
+    obtain ⟨l, hl, h⟩ := Out.bind_eq_ok.mp h
+    obtain ⟨r, hr, h⟩ := Out.bind_eq_ok.mp h
+    exact combine_selfNamed (ihr (ihl hs hl) hr) h
+
+/-- the common part of every bind `(:= x rhs)` — a statement or a nested one, from any scope: the left operand is
+the binding of `x`; after the right-hand side the re-typing step returns a register in the same slot and leaves
+the temporaries alone -/
+theorem bind_decomp {x : Name} {rhs : Expr} {sc : Scope} {c : CE} (hsn : SelfNamed sc)
+    (h : compileExpr (.sexp .bind (.atom (.name x)) rhs) sc = .ok c) :
+    ∃ (l r : CE) (left' : Reg), compileAtom (.name x) sc = .ok l ∧ compileExpr rhs l.sc = .ok r ∧
+      l.sc.tmp = sc.tmp ∧ l.sc.get x = some l.reg ∧ SelfNamed l.sc ∧ Reach False l.sc r.sc ∧
+      Reach False r.sc c.sc ∧ c.sc.tmp = r.sc.tmp ∧ bindEmit r.instrs left' r.reg c.sc = .ok c ∧
+      left'.slot = l.reg.slot := by
   unfold compileExpr at h
   obtain ⟨l, hl, h⟩ := Out.bind_eq_ok.mp h
   obtain ⟨r, hr', h⟩ := Out.bind_eq_ok.mp h
   simp only [compileExpr] at hl
   obtain ⟨li, lt, lg, -⟩ := compileAtom_name hl
+  have hsl : SelfNamed l.sc := compileAtom_selfNamed hsn hl
+  have hlr : Reach False l.sc r.sc := (compileExpr_reach (F := False) (fun f => f.elim) hr').1
   have hrc := (combine_reach (F := False) (fun f => f.elim) h).1
   simp only [combine] at h
   obtain ⟨left', sc'', hbt, hbe⟩ := combineBind_ok_split h
   rw [li, List.nil_append] at hbe
   obtain ⟨e1, -⟩ := bindEmit_sc hbe
   subst e1
-  -- the invariant after the left operand, and after the right-hand side
-  have hinv0 : Inv sc.clearTmps := Inv.of_named (a := sc) (b := sc.clearTmps) rfl hinv
-  have hinvl : Inv l.sc := (compileAtom_ext hl).inv hinv0
-  have hextr : Ext l.sc r.sc := rhs_ext hrhs hr'
-  have hinvr : Inv r.sc := hextr.inv hinvl
-  have hself : ∀ s, l.reg.getType = .name s → s = x := fun s hs => hinvl.selfName x l.reg s lg hs
-  have hgx : r.sc.get x = some l.reg := hextr.get_bound lg
-  obtain ⟨g1, g2, g3⟩ := bindTarget_self hgx hself hbt
-  refine ⟨l, r, left', hr', ?_, hrc, hbe, g1, ?_, ?_⟩
-  · rw [lt]; rfl
-  · intro n r0 s hg hs
-    by_cases e : n = x
-    · subst e; rw [g1] at hg; cases hg; exact g3 s hs
-    · rw [g2 n e] at hg
-      exact hinvr.selfName n r0 s hg hs
-  · exact hinv.flag_reach hreach
+  obtain ⟨r0, hr0, hslot⟩ := hlr.fwd lg
+  obtain ⟨g1, g2⟩ := bindTarget_slot hr0 hslot (fun s hs => hsl x l.reg s lg hs) hbt
+  exact ⟨l, r, left', hl, hr', lt, lg, hsl, hlr, hrc, g2, hbe, g1⟩
 
-/-! ## statements -/
+/-! ## value expressions -/
 
-theorem pure_none_instrs {e : Expr} (hp : pureE e = true) {sc : Scope} {c : CE}
+theorem lowerE_op {ρ : Rho} {o : Op} {code : Nat} {l r : Expr} {k : Nat} {cl cr : LE}
+    (ho : pureOpcode o = some code) (hl : lowerE ρ l k = some cl) (hr : lowerE ρ r cl.k = some cr) :
+    lowerE ρ (.sexp o l r) k =
+      some ⟨cl.instrs ++ cr.instrs ++ [⟨code, vTmp cr.k, cl.reg, cr.reg⟩], vTmp cr.k, cr.k + 1⟩ := by
+  rw [lowerE.eq_5 _ _ _ _ _ (fun x hb _ => by subst hb; cases ho), ho, hl]
+  simp only [hr]
+
+/-- a value expression whose result register is the placeholder has no code (it is then an atom bound to it:
+impossible for a consistent scope, but not needed here) -/
+theorem value_none_instrs {e : Expr} (hp : valueE e = true) {sc : Scope} {c : CE}
     (h : compileExpr e sc = .ok c) (hn : c.reg = .none) : c.instrs = [] := by
   cases e with
   | cmd _ => cases hp
   | none => cases hp
   | atom p => exact (compileAtom_basic h).1
   | sexp o le re =>
-    obtain ⟨⟨code, ho⟩, -, -⟩ := pureE_sexp hp
-    unfold compileExpr at h
-    obtain ⟨l, hl, h⟩ := Out.bind_eq_ok.mp h
-    obtain ⟨r, hr', h⟩ := Out.bind_eq_ok.mp h
-    obtain ⟨t, o', rfl, -, -⟩ := combine_pure ho h
-    cases hn
+    rcases valueE_sexp_cases hp with ⟨x, rfl, rfl, -, -⟩ | ⟨code, ho, -, -, -⟩
+    · exfalso
+      unfold compileExpr at h
+      obtain ⟨l, hl, h⟩ := Out.bind_eq_ok.mp h
+      obtain ⟨r, hr', h⟩ := Out.bind_eq_ok.mp h
+      simp only [combine] at h
+      obtain ⟨left', sc'', -, hbe⟩ := combineBind_ok_split h
+      exact bindEmit_reg_ne_none hbe hn
+    · unfold compileExpr at h
+      obtain ⟨l, hl, h⟩ := Out.bind_eq_ok.mp h
+      obtain ⟨r, hr', h⟩ := Out.bind_eq_ok.mp h
+      obtain ⟨t, o', rfl, -, -⟩ := combine_pure ho h
+      cases hn
+
+/-- the `bind` of a value expression appends the `bind` instruction -/
+theorem bind_value_emit {rhs : Expr} (hp : valueE rhs = true) {sc : Scope} {r : CE}
+    (hr : compileExpr rhs sc = .ok r) {left' : Reg} {scc : Scope} {c : CE}
+    (hbe : bindEmit r.instrs left' r.reg scc = .ok c) :
+    c = ⟨r.instrs ++ [{ res := left', op := .bind, left := left', right := r.reg }], left', scc⟩ := by
+  have hnn : r.reg ≠ .none := by
+    intro e
+    have hi := value_none_instrs hp hr e
+    rw [e, hi] at hbe
+    exact bindEmit_nil_none hbe
+  exact bindEmit_plain hnn hbe
+
+/-- **stage 1.** A value expression (pure, or with hazard-free nested binds) compiles to its reference lowering
+under the *final* scope: same instructions, same result register, same number of temporaries. Inside the
+expression the scope changes (a nested bind may create a local or re-type an untyped one), but bindings never
+move (`Reach.fwd`), so the final scope assigns the same cells. `hk`/the second conclusion: at most 8 temporaries
+are live, so `new_tmp`'s `as u8` is the identity. -/
+theorem compileExpr_lower {scF : Scope} {e : Expr} (hp : valueE e = true) {sc : Scope} {c : CE}
+    (hsn : SelfNamed sc)
+    (h : compileExpr e sc = .ok c) (hr : Reach False c.sc scF)
+    (hser : ∀ i ∈ c.instrs, SerI i) (hreg : SerR c.reg) (hk : sc.tmp.length ≤ 8) :
+    lowerE (rhoOf scF) e sc.tmp.length = some ⟨c.instrs.map toVInstr, toVReg c.reg, c.sc.tmp.length⟩ ∧
+    c.sc.tmp.length ≤ 8 := by
+  induction e generalizing sc c with
+  | cmd _ => cases hp
+  | none => cases hp
+  | atom p =>
+    simp only [compileExpr] at h
+    obtain ⟨h1, h2⟩ := compileAtom_basic h
+    rw [compileAtom_lower h hr hreg, h1, h2]
+    exact ⟨rfl, hk⟩
+  | sexp o le re ihl ihr =>
+    rcases valueE_sexp_cases hp with ⟨x, rfl, rfl, -, hvr⟩ | ⟨code, ho, hpl, hpr, -⟩
+    · -- a nested bind
+      obtain ⟨l, r, left', hl, hr', lt, lg, hsl, hlr, hrc, htmp, hbe, hslot⟩ := bind_decomp hsn h
+      have rr : Reach False r.sc scF := hrc.trans hr
+      have rl : Reach False l.sc scF := hlr.trans rr
+      have hρ : rhoOf scF x = some (toVReg l.reg) := rhoOf_of_reach rl lg
+      have hc := bind_value_emit hvr hr' hbe
+      rw [hc] at hser hreg ⊢
+      simp only at hser hreg ⊢
+      have hlast := hser _ (List.mem_append_right _ (List.mem_singleton.mpr rfl))
+      obtain ⟨er, kr⟩ := ihr hvr hsl hr' rr (fun i hi => hser i (List.mem_append_left _ hi)) hlast.2.2
+        (by rw [lt]; exact hk)
+      rw [lt] at er
+      refine ⟨?_, by rw [htmp]; exact kr⟩
+      rw [lowerE, hρ, er]
+      simp only [List.map_append, List.map_cons, List.map_nil, toVInstr, toVReg_of_slot hslot, htmp]
+      rfl
+    · -- an operator node
+      unfold compileExpr at h
+      obtain ⟨l, hl, h⟩ := Out.bind_eq_ok.mp h
+      obtain ⟨r, hr', h⟩ := Out.bind_eq_ok.mp h
+      obtain ⟨t, o', rfl, hop, -⟩ := combine_pure ho h
+      have rr : Reach False r.sc scF := (Reach.single (Step.tmp _ _)).trans hr
+      have rl : Reach False l.sc scF := (compileExpr_reach (F := False) (fun f => f.elim) hr').1.trans rr
+      simp only at hser hreg
+      have hlast := hser _ (List.mem_append_right _ (List.mem_singleton.mpr rfl))
+      have hsl : ∀ i ∈ l.instrs, SerI i := fun i hi =>
+        hser i (List.mem_append_left _ (List.mem_append_left _ hi))
+      have hsr : ∀ i ∈ r.instrs, SerI i := fun i hi =>
+        hser i (List.mem_append_left _ (List.mem_append_right _ hi))
+      obtain ⟨el, kl⟩ := ihl hpl hsn hl rl hsl hlast.2.1 hk
+      obtain ⟨er, kr⟩ := ihr hpr (compileExpr_selfNamed hsn hl) hr' rr hsr hlast.2.2 kl
+      have hmod : r.sc.tmp.length % 256 = r.sc.tmp.length := Nat.mod_eq_of_lt (by omega)
+      have h7 : r.sc.tmp.length ≤ 7 := by have := SerR_tmp hreg; omega
+      refine ⟨?_, by simp only [List.length_append, List.length_singleton]; omega⟩
+      rw [lowerE_op ho el er]
+      simp only [hmod, toVReg_tmp h7, List.length_append, List.length_singleton,
+        List.map_append, List.map_cons, List.map_nil, toVInstr, hop]
+
+/-- the right-hand side of a statement of the fragment -/
+def RhsOk (rhs : Expr) : Prop :=
+  valueE rhs = true ∨
+  ∃ o a b, rhs = .sexp o a b ∧ (o = .if ∨ o = .notIf ∨ o = .ewma) ∧ valueE a = true ∧ valueE b = true
+
+theorem rhsOk_of_stmtOk2 {x : Name} {rhs : Expr} (h : stmtOk2 (.sexp .bind (.atom (.name x)) rhs) = true) :
+    RhsOk rhs := by
+  cases rhs with
+  | atom p => exact Or.inl rfl
+  | cmd c => simp [stmtOk2, valueE] at h
+  | none => simp [stmtOk2, valueE] at h
+  | sexp o a b =>
+    cases o <;> simp only [stmtOk2, Bool.and_eq_true] at h <;>
+      first
+        | exact Or.inl h
+        | exact Or.inr ⟨_, _, _, rfl, Or.inl rfl, h.1.1, h.1.2⟩
+        | exact Or.inr ⟨_, _, _, rfl, Or.inr (Or.inl rfl), h.1.1, h.1.2⟩
+        | exact Or.inr ⟨_, _, _, rfl, Or.inr (Or.inr rfl), h.1.1, h.1.2⟩
+
+theorem rhs_selfNamed {rhs : Expr} {sc : Scope} {c : CE} (hs : SelfNamed sc)
+    (h : compileExpr rhs sc = .ok c) : SelfNamed c.sc := compileExpr_selfNamed hs h
+
+/-! ## statements -/
 
 theorem setLastRet_append (pre : List VInstr) (last : VInstr) (r : VReg) :
     setLastRet (pre ++ [last]) r = pre ++ [{ last with ret := r }] := by
   simp [setLastRet]
 
-theorem lowerStmt_plain {ρ : Rho} {x : Name} {rhs : Expr} (hp : pureE rhs = true) :
+theorem lowerStmt_plain {ρ : Rho} {x : Name} {rhs : Expr} (hp : valueE rhs = true) :
     lowerStmt ρ (.sexp .bind (.atom (.name x)) rhs) =
       match ρ x, lowerE ρ rhs 0 with
       | some tx, some ce => some (ce.instrs ++ [⟨1, tx, tx, ce.reg⟩])
       | _, _ => none := by
-  cases rhs with
-  | atom p => rfl
-  | cmd c => cases hp
-  | none => cases hp
-  | sexp o a b =>
-    cases o <;> first | rfl | (simp [pureE] at hp)
+  obtain ⟨h1, h2, h3⟩ := valueE_not_cond hp
+  exact lowerStmt.eq_5 ρ x rhs h1 h2 h3
 
 theorem lowerStmt_cond {ρ : Rho} {x : Name} {o : Op} {a b : Expr} (ho : o = .if ∨ o = .notIf ∨ o = .ewma) :
     lowerStmt ρ (.sexp .bind (.atom (.name x)) (.sexp o a b)) = lowerCond ρ (opNat o) x a b := by
@@ -492,36 +621,30 @@ theorem compileStmt_lower {scF : Scope} {x : Name} {rhs : Expr} {sc : Scope} {c 
     (hr : Reach False c.sc scF) (hser : ∀ i ∈ c.instrs, SerI i) :
     lowerStmt (rhoOf scF) (.sexp .bind (.atom (.name x)) rhs) = some (c.instrs.map toVInstr) ∧
     Inv c.sc := by
-  obtain ⟨l, r, left', hr', lt, hrc, hbe, hgx, hinv'⟩ := bind_decomp hrhs hinv h
+  have hreach : Reach False sc c.sc :=
+    (Reach.single (Step.tmp _ _)).trans (compileExpr_reach (F := False) (fun f => f.elim) h).1
+  have hsn0 : SelfNamed sc.clearTmps := hinv.selfName.of_named (a := sc) (b := sc.clearTmps) rfl
+  have hinv' : Inv c.sc := ⟨compileExpr_selfNamed hsn0 h, hinv.flag_reach hreach⟩
+  obtain ⟨l, r, left', hl, hr', lt, lg, hsl, hlr, hrc, htmp, hbe, hslot⟩ := bind_decomp hsn0 h
   refine ⟨?_, hinv'⟩
-  have hρ : rhoOf scF x = some (toVReg left') := rhoOf_of_reach hr hgx
   have rr : Reach False r.sc scF := hrc.trans hr
+  have rl : Reach False l.sc scF := hlr.trans rr
+  have hρ : rhoOf scF x = some (toVReg left') := by
+    rw [toVReg_of_slot hslot]; exact rhoOf_of_reach rl lg
+  have lt0 : l.sc.tmp = [] := lt
   rcases hrhs with hp | ⟨o, a, b, rfl, ho, hpa, hpb⟩
   · -- plain bind
-    have hnn : r.reg ≠ .none := by
-      intro e
-      have hi := pure_none_instrs hp hr' e
-      unfold bindEmit at hbe
-      rw [if_pos e, hi] at hbe
-      split at hbe
-      · simp only [List.getLast?_nil] at hbe
-        cases hbe
-      · cases hbe
-    generalize c.sc = scc at hbe
-    unfold bindEmit at hbe
-    rw [if_neg hnn] at hbe
-    split at hbe
-    · cases hbe
-      simp only at hser
-      have hlast := hser _ (List.mem_append_right _ (List.mem_singleton.mpr rfl))
-      obtain ⟨el, -⟩ := compileExpr_lower (scF := scF) hp hr' rr
-        (fun i hi => hser i (List.mem_append_left _ hi)) hlast.2.2 (by rw [lt]; simp)
-      rw [lt] at el
-      simp only [List.length_nil] at el
-      rw [lowerStmt_plain hp, hρ, el]
-      simp only [List.map_append, List.map_cons, List.map_nil, toVInstr]
-      rfl
-    · cases hbe
+    have hc := bind_value_emit hp hr' hbe
+    rw [hc] at hser ⊢
+    simp only at hser ⊢
+    have hlast := hser _ (List.mem_append_right _ (List.mem_singleton.mpr rfl))
+    obtain ⟨el, -⟩ := compileExpr_lower (scF := scF) hp hsl hr' rr
+      (fun i hi => hser i (List.mem_append_left _ hi)) hlast.2.2 (by rw [lt0]; simp)
+    rw [lt0] at el
+    simp only [List.length_nil] at el
+    rw [lowerStmt_plain hp, hρ, el]
+    simp only [List.map_append, List.map_cons, List.map_nil, toVInstr]
+    rfl
   · -- conditional / ewma
     unfold compileExpr at hr'
     obtain ⟨ca, hca, hr'⟩ := Out.bind_eq_ok.mp hr'
@@ -540,11 +663,11 @@ theorem compileStmt_lower {scF : Scope} {x : Name} {rhs : Expr} {sc : Scope} {c 
       simp only at hser
       have hlast := hser _ (List.mem_append_right _ (List.mem_singleton.mpr rfl))
       have ra : Reach False ca.sc scF := (compileExpr_reach (F := False) (fun f => f.elim) hcb).1.trans rr
-      obtain ⟨ea, ka⟩ := compileExpr_lower (scF := scF) hpa hca ra
-        (fun i hi => hser i (List.mem_append_left _ (List.mem_append_left _ hi))) hlast.2.1 (by rw [lt]; simp)
-      obtain ⟨eb, -⟩ := compileExpr_lower (scF := scF) hpb hcb rr
+      obtain ⟨ea, ka⟩ := compileExpr_lower (scF := scF) hpa hsl hca ra
+        (fun i hi => hser i (List.mem_append_left _ (List.mem_append_left _ hi))) hlast.2.1 (by rw [lt0]; simp)
+      obtain ⟨eb, -⟩ := compileExpr_lower (scF := scF) hpb (compileExpr_selfNamed hsl hca) hcb rr
         (fun i hi => hser i (List.mem_append_left _ (List.mem_append_right _ hi))) hlast.2.2 ka
-      rw [lt] at ea
+      rw [lt0] at ea
       simp only [List.length_nil] at ea
       rw [lowerStmt_cond ho, setLastRes_append]
       simp only [lowerCond, hρ, ea, eb, List.map_append, List.map_cons, List.map_nil, toVInstr]
@@ -617,27 +740,28 @@ theorem compileFlag_lower {scF : Scope} {flag : Expr} {sc : Scope} {is : List In
         Out.pure_eq, Out.ok.injEq, Prod.mk.injEq, setLastRes_append] at h
       obtain ⟨rfl, -⟩ := h
       have hlast := hser _ (List.mem_append_right _ (List.mem_singleton.mpr rfl))
-      obtain ⟨el, kl⟩ := compileExpr_lower (scF := scF) hpa hl rl
+      obtain ⟨el, kl⟩ := compileExpr_lower (scF := scF) (valueE_of_pure hpa) hinv0.selfName hl rl
         (fun i hi => hser i (List.mem_append_left _ (List.mem_append_left _ hi))) hlast.2.1
         (by show ([] : List Reg).length ≤ 8; simp)
-      obtain ⟨er, -⟩ := compileExpr_lower (scF := scF) hpb hr' rr
+      obtain ⟨er, -⟩ := compileExpr_lower (scF := scF) (valueE_of_pure hpb)
+        (compileExpr_selfNamed hinv0.selfName hl) hr' rr
         (fun i hi => hser i (List.mem_append_left _ (List.mem_append_right _ hi))) hlast.2.2 kl
       have e0 : sc.clearTmps.tmp.length = 0 := rfl
       rw [e0] at el
-      simp only [lowerFlag, lowerE, ho, el, er, vTmp, if_true, isEmpty_snoc,
+      simp only [lowerFlag, lowerE_op ho el er, vTmp, if_true, isEmpty_snoc,
         Bool.false_eq_true, if_false, setLastRet_append, List.map_append, List.map_cons,
         List.map_nil, toVInstr, hop, toVReg_flag]
 
 /-! ## bodies, events, programs -/
 
-theorem stmtOk_inv {e : Expr} (h : stmtOk e = true) :
+theorem stmtOk2_inv {e : Expr} (h : stmtOk2 e = true) :
     e = .none ∨ ∃ x rhs, e = .sexp .bind (.atom (.name x)) rhs := by
-  unfold stmtOk at h
+  unfold stmtOk2 at h
   split at h <;> first | exact Or.inl rfl | exact Or.inr ⟨_, _, rfl⟩ | cases h
 
 /-- **stage 3b.** -/
 theorem compileBody_lower {scF : Scope} {body : List Expr} {sc : Scope} {is : List Instr}
-    {sc' : Scope} (hst : ∀ e ∈ body, stmtOk e = true) (hinv : Inv sc)
+    {sc' : Scope} (hst : ∀ e ∈ body, stmtOk2 e = true) (hinv : Inv sc)
     (h : compileBody body sc = .ok (is, sc')) (hr : Reach False sc' scF) (hser : ∀ i ∈ is, SerI i) :
     lowerBody (rhoOf scF) body = some (is.map toVInstr) ∧ Inv sc' := by
   induction body generalizing sc is with
@@ -646,9 +770,9 @@ theorem compileBody_lower {scF : Scope} {body : List Expr} {sc : Scope} {is : Li
     obtain ⟨rfl, rfl⟩ := h
     exact ⟨rfl, hinv⟩
   | cons e rest ih =>
-    have hrest : ∀ e ∈ rest, stmtOk e = true := fun e he => hst e (List.mem_cons_of_mem _ he)
+    have hrest : ∀ e ∈ rest, stmtOk2 e = true := fun e he => hst e (List.mem_cons_of_mem _ he)
     unfold compileBody at h
-    rcases stmtOk_inv (hst e List.mem_cons_self) with rfl | ⟨x, rhs, rfl⟩
+    rcases stmtOk2_inv (hst e List.mem_cons_self) with rfl | ⟨x, rhs, rfl⟩
     · rw [if_pos rfl] at h
       obtain ⟨e1, e2⟩ := ih hrest hinv h hser
       refine ⟨?_, e2⟩
@@ -662,7 +786,7 @@ theorem compileBody_lower {scF : Scope} {body : List Expr} {sc : Scope} {is : Li
         simp only [Out.pure_eq, Out.ok.injEq, Prod.mk.injEq] at h
         obtain ⟨rfl, rfl⟩ := h
         have hrc : Reach False c.sc scF := (compileBody_reach (F := False) (fun f => f.elim) hq).trans hr
-        obtain ⟨s1, s2⟩ := compileStmt_lower (scF := scF) (rhsOk_of_stmtOk (hst _ List.mem_cons_self))
+        obtain ⟨s1, s2⟩ := compileStmt_lower (scF := scF) (rhsOk_of_stmtOk2 (hst _ List.mem_cons_self))
           hinv hc hrc (fun i hi => hser i (List.mem_append_left _ hi))
         obtain ⟨e1, e2⟩ := ih hrest s2 hq (fun i hi => hser i (List.mem_append_right _ hi))
         refine ⟨?_, e2⟩
@@ -673,7 +797,7 @@ def evToExpr (e : EvRec) : Libccp.Expr :=
 
 /-- **stage 3c.** -/
 theorem compileEvents_lower {scF : Scope} {evs : List Event} {idx : Nat} {sc : Scope} {cp : CP}
-    (hst : Stratified evs = true) (hinv : Inv sc)
+    (hst : InOracle evs = true) (hinv : Inv sc)
     (h : compileEvents evs idx sc = .ok cp) (hr : Reach False cp.sc scF) (hser : ∀ i ∈ cp.instrs, SerI i) :
     lowerEvents (rhoOf scF) evs idx = some ⟨cp.events.map evToExpr, cp.instrs.map toVInstr⟩ := by
   induction evs generalizing idx sc cp with
@@ -682,7 +806,7 @@ theorem compileEvents_lower {scF : Scope} {evs : List Event} {idx : Nat} {sc : S
     subst h
     rfl
   | cons ev rest ih =>
-    simp only [Stratified, List.all_cons, Bool.and_eq_true] at hst
+    simp only [InOracle, List.all_cons, Bool.and_eq_true] at hst
     obtain ⟨⟨hpf, hsb⟩, hsr⟩ := hst
     unfold compileEvents at h
     obtain ⟨q1, h1, h⟩ := Out.bind_eq_ok.mp h
@@ -699,7 +823,7 @@ theorem compileEvents_lower {scF : Scope} {evs : List Event} {idx : Nat} {sc : S
       (fun i hi => hser i (List.mem_append_left _ (List.mem_append_left _ hi)))
     obtain ⟨b1, b2⟩ := compileBody_lower (scF := scF) (List.all_eq_true.mp hsb) f2 h2 r2
       (fun i hi => hser i (List.mem_append_left _ (List.mem_append_right _ hi)))
-    have t1 := ih (by simpa [Stratified] using hsr) b2 h3 hr
+    have t1 := ih (by simpa [InOracle] using hsr) b2 h3 hr
       (fun i hi => hser i (List.mem_append_right _ hi))
     simp only [lowerEvents, f1, b1, List.length_map, t1, List.map_cons, List.map_append, evToExpr]
 
@@ -739,15 +863,18 @@ The statement as first proposed. It was FALSE for the compiler before the repair
 `cexSrc` in `CompileLower2.lean`) and was then proved under the added hypothesis
 `DefBeforeUse ds evs = true`. For the repaired compiler it holds as proposed, with no such hypothesis. -/
 
-/-- **T-A (`compile ⊑ lower`).** On a stratified program that the compiler and the encoder accept, the
-compiler emits exactly the reference lowering under the final scope — whether or not names are read
-before they are assigned. -/
+/-- **T-A (`compile ⊑ lower`).** On a program of the fragment `InOracle` (pure conditions; statements that bind
+value expressions — pure, or with hazard-free nested binds — or conditionals / ewma over such operands) that
+the compiler and the encoder accept, the compiler emits exactly the reference lowering under the final scope —
+whether or not names are read before they are assigned. (`noHazard` is not used by this half: the compiler
+agrees with the lowering on every program whose expressions have these *shapes*; hazard freedom is what makes
+the lowering compute the source semantics.) -/
 theorem compile_refines_lower (uid : Nat) (src : List Char) (upd : List (Name × Nat)) (ds : List Decl)
     (evs : List Event) (sc0 : Scope) (bin : Bin) (scF : Scope) (img : Bytes)
     (hp : parseSource src = some (ds, evs))
     (h0 : declareAll (Scope.new uid) ds = .ok sc0)
     (hc : compileProg evs (applyUpdates sc0 upd) = .ok (bin, scF))
-    (hst : Stratified evs = true)
+    (hst : InOracle evs = true)
     (hser : bin.serialize = .ok img) :
     lowerProg (fun n => (scF.get n).map toVReg) ((defInstrs (applyUpdates sc0 upd).named).map toVInstr) evs =
       some ⟨bin.events.map (fun e => ({ condStart := e.flagIdx, numCond := e.numFlag, eventStart := e.bodyIdx,
